@@ -67,6 +67,9 @@ class Gen:
             cmds["all"] = cmd(tool="phony", ins=tn, outs=["<all>"]); order.append("all"); tn = ["<all>"]
         if r.random() < 0.2:
             self.absent("mk"); cmds["mkd"] = cmd(tool="mkdir", outs=["mk"]); order.append("mkd"); tn = tn + ["mk"]
+        if r.random() < 0.2:
+            self.absent("lnk"); tgt = r.choice(finals + srcs)
+            cmds["ln"] = cmd(tool="symlink", ins=[tgt] if r.random() < 0.7 else [], outs=["lnk"], tag=self.nodes[tgt]["path"]); order.append("ln"); tn = tn + ["lnk"]
         targets["t"] = tn
         if r.random() < 0.4: targets["u"] = [r.choice(finals)]
         return make_desc(cmds, targets, order)
